@@ -43,6 +43,14 @@ ASSUMPTIONS = [
     'every other IN-subquery, D25); a statement whose lowering is refused (IN over a column, FROM expressions on the Beancount '
     'tables, scalar functions beyond the ten of Eval.v, folded constants that evaluate to NULL, types outside '
     'int/Decimal/str/date/bool) is counted as not lowerable, not compared',
+    'translator tie (C05_source_*; Gen/SrcLookup.v, Gen/SrcCompiler.v regenerated from types.py / compiler.py on every run): '
+    'trusted are the PyMini semantics, the translator rules K1-K11 of harness/vf/src_compiler.py (assert, overload signature '
+    'equality as AnyType-aware list equality, itertools.product(*..), identity with a datatype, issubclass, `continue` as else-branch, '
+    'accumulator passing for list parameters mutated in place) and the primitive semantics of coq/Model/PrimsCompiler.v: compiled '
+    'nodes are references into a heap (dtype / childnodes / isinstance / EvalNode.__eq__ = Compile.node_eqb on the referenced nodes), '
+    'datatypes are their snapshot names, t.__mro__ is the table emitted with the generated terms, dicts keep the last item of a key, '
+    'an exception kind is a function of the class and the leading constant text of the message; `self._compile`, `is_aggregate`, '
+    '`check_aggregates`, `_bases` are opaque callables in the theorems about their callers (assumed to return the model\'s value)',
 ]
 
 # The tables are EMPTY on purpose: an exception at execution over empty tables is independent of the data, i.e. a
